@@ -143,6 +143,17 @@ func (h *harness) poll() {
 		h.selEntries++
 	}
 	h.wasSel = sel
+	// the connection carrying the establishing frames died before the session was selected (a short
+	// T7 can expire while the select is still crossing the line): establish again on the next one
+	if h.establishing && h.estSent && !sel && h.pipeConn != nil && (!h.pipeConn.Alive() || h.pipeConn.L.A.ClosedAt >= 0) {
+		h.estSent = false
+		h.pipe = nil
+		h.pipeConn = nil
+		h.w.Probe("establishing_connection_lost_retry")
+		if !h.sc.Active {
+			h.passiveConnectLoop()
+		}
+	}
 	for i := 0; i < len(h.whens); i++ {
 		wn := h.whens[i]
 		if !wn.done && wn.cond() {
@@ -376,8 +387,17 @@ func (h *harness) setup() {
 
 				return
 			}
+			// 0-2 pipelined (Deselect.req, Select.req) pairs in front of the Deselect.req that leaves the
+			// session deselected — all in one segment, so the receive path handles them back to back
+			var stream []byte
+			for k := w.T.Choose("scn", 3); k > 0; k-- {
+				stream = append(stream, refhsms.Frame(refhsms.Header{Session: sc.Session, SType: refhsms.STDeselectReq, Sys: r.P.NextSys()}, nil)...)
+				stream = append(stream, refhsms.Frame(refhsms.Header{Session: sc.Session, SType: refhsms.STSelectReq, Sys: r.P.NextSys()}, nil)...)
+				w.Probe("deselect_select_churn_pair")
+			}
 			sys := r.P.NextSys()
-			c.SendFrame(refhsms.Header{Session: sc.Session, SType: refhsms.STDeselectReq, Sys: sys}, nil)
+			stream = append(stream, refhsms.Frame(refhsms.Header{Session: sc.Session, SType: refhsms.STDeselectReq, Sys: sys}, nil)...)
+			c.SendRaw(stream, refhsms.Header{}, nil, true)
 			h.when(func() bool {
 				for _, f := range c.Rx {
 					if f.H.SType == refhsms.STDeselectRsp && f.H.Sys == sys {
